@@ -2517,6 +2517,14 @@ class _State(object):
                     a.run(self, c2, out)
 
     def check_attrset_conflict(self, defs):
+        for i, d in enumerate(defs):
+            for e in defs[i + 1:]:
+                if d.prec == e.prec and (d.uses or e.uses):
+                    # do attributes obtained through use-attribute-sets count as
+                    # "contained" in the definition for the 7.1.4 conflict rule,
+                    # and in which order are the merged definitions expanded?
+                    raise XSLTUnsupported('same-named attribute sets of equal import precedence, '
+                                          'one with use-attribute-sets')
         top = {}
         for d in defs:
             for nm in d.const_names:
